@@ -14,7 +14,11 @@ for id in $ids; do
   for c in $checks; do
     out=$(SCRATCH=1 LINES_MAX=2 tools/try_seed.sh $id $c 2>&1)
     if echo "$out" | grep -q "^VIOLATION property=$c"; then verdict="CAUGHT $id $c"; break; fi
+    if ! echo "$out" | grep -q "^HELD property=$c"; then verdict="INCONCLUSIVE $id $c $(echo "$out" | tail -1 | cut -c1-120)"; fi
     if echo "$out" | grep -q "patch does not apply"; then verdict="NOAPPLY $id"; break; fi
   done
   echo "$verdict"
+  # the Go build cache grows by gigabytes per check run (every run compiles a freshly generated corpus module)
+  n=$((n+1))
+  if [ $((n % 8)) = 0 ] && [ "$(du -sm ${GOCACHE:-$HOME/.cache/go-build} 2>/dev/null | cut -f1)" -gt 30000 ]; then go clean -cache; fi
 done
